@@ -46,6 +46,9 @@ fn is_pure_(expr: &Expression_) -> bool {
 /// sibling.
 struct Operand<'a> {
     expr: &'a Expression,
+    /// The operand as written, including any parentheses around
+    /// `expr`. This is the text to delete.
+    outer_expr: &'a Expression,
     delete_from: Option<&'a Position>,
 }
 
@@ -53,29 +56,46 @@ struct Operand<'a> {
 /// to the inner expressions. For `a || b || c`, this returns `[a, b, c]`.
 fn collect_operands<'a>(expr: &'a Expression, op_sym: &BinaryOperatorSymbol) -> Vec<Operand<'a>> {
     let mut result = Vec::new();
-    collect_operands_(expr, op_sym, None, &mut result);
+    collect_operands_(expr, expr, op_sym, None, &mut result);
     result
 }
 
 fn collect_operands_<'a>(
     expr: &'a Expression,
+    outer_expr: &'a Expression,
     op_sym: &BinaryOperatorSymbol,
     delete_from: Option<&'a Position>,
     result: &mut Vec<Operand<'a>>,
 ) {
     match &expr.expr_ {
         Expression_::BinaryOperator(lhs, op, rhs) if op == op_sym => {
-            collect_operands_(lhs, op_sym, delete_from, result);
+            collect_operands_(lhs, lhs, op_sym, delete_from, result);
             // The right operand's left sibling is the whole left
             // subtree, so deletions start at its end (after any closing
             // parenthesis), not at the previous flattened operand.
-            collect_operands_(rhs, op_sym, Some(&lhs.position), result);
+            collect_operands_(rhs, rhs, op_sym, Some(&lhs.position), result);
         }
         Expression_::Parentheses(paren) => {
-            collect_operands_(&paren.expr, op_sym, delete_from, result);
+            // Look through the parentheses, but remember them: they
+            // belong to the operand's text.
+            //
+            // If the parentheses hold a chain of the same operator,
+            // its first operand has no left sibling inside the
+            // parentheses, and deleting from the sibling outside would
+            // remove the opening parenthesis.
+            let is_nested_chain = matches!(
+                &paren.expr.expr_,
+                Expression_::BinaryOperator(_, op, _) if op == op_sym
+            );
+            let delete_from = if is_nested_chain { None } else { delete_from };
+            collect_operands_(&paren.expr, outer_expr, op_sym, delete_from, result);
         }
         _ => {
-            result.push(Operand { expr, delete_from });
+            result.push(Operand {
+                expr,
+                outer_expr,
+                delete_from,
+            });
         }
     }
 }
@@ -110,7 +130,7 @@ impl Visitor for RepeatedBoolVisitor {
                             // deleting from the end of the operand's left
                             // sibling to the end of this operand.
                             let fixes = if let Some(delete_from) = operand.delete_from {
-                                let mut fix_pos = expr.position.clone();
+                                let mut fix_pos = operand.outer_expr.position.clone();
                                 fix_pos.start_offset = delete_from.end_offset;
                                 fix_pos.line_number = delete_from.end_line_number;
                                 fix_pos.column = delete_from.end_column;
